@@ -50,7 +50,20 @@ impl crate::scenario::Instrument for EstimateProbe {
                 );
                 let mut st = si.state_model.initial_state().map_err(|e| e.to_string())?;
                 si.traversal_model.estimate_traversal((a, b), &mut st, &si.state_model).map_err(|e| e.to_string())?;
-                Ok(si.state_model.serialize_state(&st))
+                let first = si.state_model.serialize_state(&st);
+                // a second estimate from the same vertex towards another one (round 9): the reference asks a fresh
+                // search instance, the explored application the instance that has just answered the first - the way
+                // the sub-searches of a k-shortest-paths query share one instance. An estimate is a function of its
+                // two ends, not of what the model was asked before
+                if g.n_vertices() >= 3 {
+                    let c = g.get_vertex(&routee_compass_core::model::network::VertexId(1)).map_err(|e| e.to_string())?;
+                    let si2 = if reference { Some(app.search_app.build_search_instance(&q).map_err(|e| e.to_string())?) } else { None };
+                    let sj = si2.as_ref().unwrap_or(&si);
+                    let mut st2 = sj.state_model.initial_state().map_err(|e| e.to_string())?;
+                    sj.traversal_model.estimate_traversal((a, c), &mut st2, &sj.state_model).map_err(|e| e.to_string())?;
+                    return Ok(json!({"to_last": first, "then_to_vertex_1": sj.state_model.serialize_state(&st2)}));
+                }
+                Ok(first)
             }));
             per.insert(name.clone(), match r {
                 Ok(Ok(v)) => v,
@@ -296,7 +309,9 @@ fn judge(case: &Case, obs: &Obs) -> (Vec<Violation>, BTreeMap<String, u64>, bool
         for (name, ra) in a {
             if let Some(rb) = b.get(name) {
                 bump("best_case_estimates_compared", 1);
-                if !json_close(ra, rb, 1e-9) {
+                if ra.get("to_last").is_some() && json_close(&ra["to_last"], &rb["to_last"], 1e-9) && !json_close(&ra["then_to_vertex_1"], &rb["then_to_vertex_1"], 1e-9) {
+                    v.push(Violation { class: "best-case-estimate-depends-on-earlier-estimate".into(), detail: format!("vehicle {}: the best-case estimate from vertex 0 to vertex 1 is {} on a fresh search instance and {} on an instance that was first asked for the estimate to the last vertex", name, ra["then_to_vertex_1"], rb["then_to_vertex_1"]) });
+                } else if !json_close(ra, rb, 1e-9) {
                     v.push(Violation { class: "best-case-estimate-differs-between-builds".into(), detail: format!("vehicle {}: the best-case estimate between the first and the last vertex is {} in one application and {} in another built from the same configuration", name, ra, rb) });
                 }
             }
